@@ -261,6 +261,10 @@ def _qq(v):
         if not v.is_const():
             raise AnalysisError("symbolic entry in a numeric matrix")
         v = v.const_value()
+    from ..alg import MQ
+
+    if isinstance(v, MQ):
+        return v.rational() if v.is_rational() else v  # numbers of Q(sqrt d): exact arithmetic and exact sign
     return Q(v)
 
 
@@ -1141,3 +1145,84 @@ def iterations_rule(ctx, rid="R15.E1"):
         return (f"iterations {elem}{' Newmark' if dynamic else ''}", anchor, thunk)
 
     run_scenarios(ctx, r, [scenario("TRI3", False), scenario("QUAD4", False), scenario("TRI3", True)])
+
+
+# ---------------------------------------------------------------------------------------------------------------------
+# C11: the laws as objects (constructed, read, re-parametrised), end to end
+def laws_rule(ctx, rid="R11.E1"):
+    repo = ctx.repo
+    r = ctx.rule(rid, "elastic laws as the user builds them, end to end in exact arithmetic: for Isotropic (plane stress / plane strain / 3-D), TransverselyIsotropic, Orthotropic and Anisotropic (2-D given 3 x 3 or 6 x 6, 3-D; Voigt or Kelvin-Mandel input; rotated material axes 3-4-5) the stiffness and the compliance handed out are symmetric, exact inverses of each other and positive definite; after a parameter is assigned they are those of a law built with the new value", min_instances=6)
+    LAWS = "EasyFEA.Models.Elastic._laws."
+    W0 = World(repo)
+    anchor = repo.lookup_method(repo.cls(LAWS + "_Elastic"), "C")
+
+    def mats(W, law):
+        C = XArray.from_nested(W.get(law, "C"))
+        S = XArray.from_nested(W.get(law, "S"))
+        return C, S
+
+    def check(label, C, S):
+        n = C.shape[0]
+        if C.shape != (n, n) or S.shape != (n, n):
+            return f"{label}: C has shape {C.shape}, S {S.shape}"
+        for i in range(n):
+            for j in range(n):
+                if not same(C[i, j], C[j, i]):
+                    return f"{label}: C[{i},{j}] = {polys(C[i, j])[0]} but C[{j},{i}] = {polys(C[j, i])[0]}"
+                v = sum((Poly.of(_pn(C[i, k])) * Poly.of(_pn(S[k, j])) for k in range(n)), Poly.const(0))
+                if not same(v, 1 if i == j else 0):
+                    return f"{label}: (C S)[{i},{j}] = {v}: the stiffness and the compliance handed out are not inverses of each other"
+        piv = ldl_pivots([[C[i, j] for j in range(n)] for i in range(n)])
+        if any(p <= 0 for p in piv):
+            return f"{label}: C is not positive definite"
+        return None
+
+    def iso(dim, ps):
+        def thunk():
+            W = World(repo, lib=W0.lib)
+            law = W.new(LAWS + "Isotropic", dim, E=Q(3), v=Q(1, 4), planeStress=ps, thickness=Q(1, 2)) if dim == 2 else W.new(LAWS + "Isotropic", dim, E=Q(3), v=Q(1, 4))
+            bad = check(f"Isotropic dim {dim}{' plane stress' if ps else ''}", *mats(W, law))
+            if bad:
+                return bad
+            W.set(law, "E", Q(5))
+            W.set(law, "v", Q(1, 3))
+            ref = W.new(LAWS + "Isotropic", dim, E=Q(5), v=Q(1, 3), planeStress=ps, thickness=Q(1, 2)) if dim == 2 else W.new(LAWS + "Isotropic", dim, E=Q(5), v=Q(1, 3))
+            C1, S1 = mats(W, law)
+            C2, S2 = mats(W, ref)
+            for a, b, nm in ((C1, C2, "C"), (S1, S2, "S")):
+                for x, y in zip(a.data, b.data):
+                    if not same(x, y):
+                        return f"Isotropic dim {dim}: after E and v were assigned, {nm} holds {polys(x)[0]} where a law built with the new values has {polys(y)[0]}"
+            return None
+
+        return (f"Isotropic dim {dim}{' plane stress' if ps else ''}", anchor, thunk)
+
+    def aniso(dim, size, voigt, rotated):
+        def thunk():
+            W = World(repo, lib=W0.lib)
+            # a symmetric positive definite matrix (diagonally dominant, distinct entries)
+            M = [[Q(10 + 3 * i) if i == j else Q(1 + ((i + 2 * j) % 3), 2 + i + j) for j in range(size)] for i in range(size)]
+            M = [[(M[i][j] + M[j][i]) / 2 for j in range(size)] for i in range(size)]
+            C = XArray((size, size), [v for row in M for v in row])
+            a1, a2 = ((Q(3, 5), Q(4, 5), Q(0)), (Q(-4, 5), Q(3, 5), Q(0))) if rotated else ((Q(1), Q(0), Q(0)), (Q(0), Q(1), Q(0)))
+            law = W.new(LAWS + "Anisotropic", dim, C, voigt, XArray((3,), list(a1)), XArray((3,), list(a2)))
+            return check(f"Anisotropic dim {dim}, {size} x {size} {'Voigt' if voigt else 'Kelvin-Mandel'} input{', axes rotated' if rotated else ''}", *mats(W, law))
+
+        return (f"Anisotropic dim {dim} {size}x{size} {'voigt' if voigt else 'mandel'}{' rotated' if rotated else ''}", anchor, thunk)
+
+    def ortho(cls, dim, rotated):
+        def thunk():
+            W = World(repo, lib=W0.lib)
+            a1, a2 = ((Q(3, 5), Q(4, 5), Q(0)), (Q(-4, 5), Q(3, 5), Q(0))) if rotated else ((Q(1), Q(0), Q(0)), (Q(0), Q(1), Q(0)))
+            if cls == "TransverselyIsotropic":
+                law = W.new(LAWS + cls, dim, El=Q(10), Et=Q(4), Gl=Q(2), vl=Q(1, 5), vt=Q(1, 4), axis_l=XArray((3,), list(a1)), axis_t=XArray((3,), list(a2)))
+            else:
+                law = W.new(LAWS + cls, dim, E1=Q(10), E2=Q(6), E3=Q(4), G23=Q(2), G13=Q(3), G12=Q(5, 2), v23=Q(1, 5), v13=Q(1, 4), v12=Q(3, 10), axis_1=XArray((3,), list(a1)), axis_2=XArray((3,), list(a2)))
+            return check(f"{cls} dim {dim}{', axes rotated' if rotated else ''}", *mats(W, law))
+
+        return (f"{cls} dim {dim}{' rotated' if rotated else ''}", anchor, thunk)
+
+    scen = [iso(2, True), iso(2, False), iso(3, False)]
+    scen += [aniso(2, 3, True, False), aniso(2, 3, False, True), aniso(2, 6, True, False), aniso(2, 6, False, True), aniso(3, 6, True, True), aniso(3, 6, False, False)]
+    scen += [ortho("TransverselyIsotropic", 3, False), ortho("TransverselyIsotropic", 2, True), ortho("Orthotropic", 3, True), ortho("Orthotropic", 2, False)]
+    run_scenarios(ctx, r, scen)
